@@ -219,3 +219,30 @@ impl Elem for () {
     }
     fn dflt() -> Self {}
 }
+
+impl Elem for u8 {
+    const ZST: bool = false;
+    const KIND: &'static str = "u8";
+    fn make(p: String) -> Self { p.parse::<u64>().unwrap() as u8 }
+    fn show(&self) -> String { self.to_string() }
+    fn dflt() -> Self { 0 }
+}
+
+impl Elem for u32 {
+    const ZST: bool = false;
+    const KIND: &'static str = "u32";
+    fn make(p: String) -> Self { p.parse::<u64>().unwrap() as u32 }
+    fn show(&self) -> String { self.to_string() }
+    fn dflt() -> Self { 0 }
+}
+
+impl Elem for [u64; 3] {
+    const ZST: bool = false;
+    const KIND: &'static str = "w24";
+    fn make(p: String) -> Self { let v = p.parse::<u64>().unwrap(); [v, !v, v ^ 0x5555] }
+    fn show(&self) -> String {
+        assert!(self[1] == !self[0] && self[2] == self[0] ^ 0x5555, "torn 24-byte element");
+        self[0].to_string()
+    }
+    fn dflt() -> Self { [0, !0, 0x5555] }
+}
